@@ -417,6 +417,58 @@ def main():
     H("c12_only_pending_asks", "fee changes while the ask side holds only asks awaiting approval").env().inst(afr="0.01", afa="feea") \
         .create_ask("seller", [(5, "cv")], A1, "cv", "q", "2", 5).modify("exec", afr="0.5", afa="feea").modify("exec", afr="", afa="") \
         .modify("exec", aattrs=["kyc"]).approve("appr", [(5, "base")], A1, "base", 5).modify("exec", afr="0.5", afa="feea").query("get_contract_info").write()
+    # a book carried over from a release that left the approver amount stale after a partial reject (size 200, amount 300):
+    # every way out and a fill
+    for tag, steps in (("reject_expire", lambda h: h.rev("reject_ask", "exec", A1, 100).query("get_ask", A1).rev("expire_ask", "exec", A1)),
+                       ("fill_cancel", lambda h: h.match("exec", A1, B1, "2", 100).query("get_ask", A1).rev("cancel_ask", "seller", A1)),
+                       ("cancel", lambda h: h.query("get_ask", A1).rev("cancel_ask", "seller", A1))):
+        h = H("c08_stale_approver_amount_" + tag, "a legacy approved ask whose approver amount is ahead of its size migration").env()
+        h.lines += ["SEEDCFG ats ~ base cv q appr exec - - [] [] 0 100", "SEEDVER ats_smart_contract 0.19.1",
+                    "SEEDASK %s %s seller ready:appr:base:300 cv q 2 200" % (enc(A1), enc(A1)),
+                    "SEEDBID3 %s %s buyer base 200 0 q 400 0 - 0 2" % (enc(B1), enc(B1))]
+        h.migrate()
+        steps(h)
+        h.write()
+    h = H("c13_blank_names", "contract names made of blanks").env()
+    for nm in (" ", "\t", "  ", " ats "):
+        h.inst(name=nm)
+    h.query("get_contract_info").write()
+    for definition in ("def", "ats-smart-contract", "other_contract"):
+        for ver in ("1.0.0", "0.18.2"):
+            h = H("c14_foreign_definition_%s_%s" % (definition.replace("-", "_"), ver.replace(".", "_")), "a version record written under another contract name migration").env()
+            h.lines += ["SEEDCFG ats ~ base cv q appr exec - feeb=0.1 [] [] 0 10", "SEEDVER %s %s" % (enc(definition), ver),
+                        "SEEDBID2 %s %s buyer base 100 q 200 20:q 2 F:20:40:4" % (enc(B1), enc(B1)),
+                        "SEEDASK %s %s seller basic base q 2 100" % (enc(A1), enc(A1))]
+            h.migrate().query("get_version_info").migrate(probe=True).query("get_bid", B1).rev("cancel_bid", "buyer", B1, probe=True).write()
+    LONG = "q" * 128
+    H("c10_denomination_of_128_characters", "restricted markers whose names have 127, 128 and 129 characters").env(markers={LONG: "R", "q" * 127: "R", "q" * 129: "R", "base": "U"}) \
+        .inst(quotes=("q", LONG, "q" * 127, "q" * 129)) \
+        .create_bid("buyer", [], B1, None, "2", LONG, 10, 5).create_bid("buyer", [(10, LONG)], B2, None, "2", LONG, 10, 5) \
+        .create_ask("seller", [(5, "base")], A1, "base", LONG, "2", 5).match("exec", A1, B1, "2", 2).match("exec", A1, B2, "2", 2) \
+        .exits(owner_a="seller", owner_b="buyer").exits(owner_b="buyer", b=B2).rev("reject_bid", "exec", B2, 1).rev("cancel_bid", "buyer", B1) \
+        .create_bid("buyer", [], B2, None, "2", "q" * 127, 10, 5).create_bid("buyer", [], A2, None, "2", "q" * 129, 10, 5).write()
+    H("c07_verbatim_replay", "the very same creation sent twice, funds included").env().inst(bfr="0.01", bfa="feeb") \
+        .create_bid("buyer", [(505, "q")], B1, (5, "q"), "2.5", "q", 500, 200).create_bid("buyer", [(505, "q")], B1, (5, "q"), "2.5", "q", 500, 200) \
+        .create_bid("buyer", [(505, "q")], B1, (5, "q"), "2.50", "q", 500, 200) \
+        .create_ask("seller", [(5, "base")], A1, "base", "q", "2", 5).create_ask("seller", [(5, "base")], A1, "base", "q", "2", 5) \
+        .create_ask("seller", [(5, "cv")], A2, "cv", "q", "2", 5).create_ask("seller", [(5, "cv")], A2, "cv", "q", "2", 5).exits(owner_a="seller", owner_b="buyer").write()
+    H("c06_comma_prices", "prices written with a decimal comma, with totals consistent with that reading").env().inst(precision=1, increment=10) \
+        .create_bid("buyer", [(25, "q")], B1, None, "2,5", "q", 25, 10).create_ask("seller", [(10, "base")], A1, "base", "q", "2,5", 10) \
+        .create_bid("buyer", [(25, "q")], B2, None, "2.5", "q", 25, 10).match("exec", A1, B2, "2,5", 10).exits(owner_b="buyer", b=B2).write()
+    h = H("c03_approver_dropped_by_migration", "an approved ask whose approver a later migration leaves out of the approver list").env()
+    h.inst(approvers=("appr", "appr2")).create_ask("seller", [(10, "cv")], A1, "cv", "q", "2", 10).approve("appr", [(10, "base")], A1, "base", 10) \
+        .create_bid("buyer", [(20, "q")], B1, None, "2", "q", 20, 10).migrate(approvers=["appr2"]).query("get_contract_info") \
+        .match("exec", A1, B1, "2", 4).exits(owner_a="seller", owner_b="buyer").rev("reject_ask", "exec", A1, 2).rev("cancel_ask", "seller", A1).write()
+    H("c05_wasm_admin_as_sender", "privileged requests from the account the wasm module knows as the contract's admin").env().inst() \
+        .create_ask("seller", [(5, "base")], A1, "base", "q", "2", 5).create_bid("buyer", [(10, "q")], B1, None, "2", "q", 10, 5) \
+        .modify("admin", executors=["admin"]).rev("expire_ask", "admin", A1).rev("cancel_bid", "admin", B1).match("admin", A1, B1, "2", 5) \
+        .create_ask("seller", [(5, "cv")], A2, "cv", "q", "2", 5).approve("admin", [(5, "base")], A2, "base", 5).write()
+    for rate in ("1", "0.5"):
+        H("c01_convertible_also_quote_fee_" + rate.replace(".", "_"), "a convertible denomination that is also a quote, sold for itself, with an ask fee that takes all or half").env() \
+            .inst(conv=("cv",), quotes=("q", "cv"), afr=rate, afa="feea") \
+            .create_ask("seller", [(100, "cv")], A1, "cv", "cv", "1", 100).approve("appr", [(100, "base")], A1, "base", 100) \
+            .create_bid("buyer", [(100, "cv")], B1, None, "1", "cv", 100, 100).match("exec", A1, B1, "1", 1).match("exec", A1, B1, "1", 40) \
+            .exits(owner_a="seller", owner_b="buyer").match("exec", A1, B1, "1", 59).write()
     # known numeric classes (recorded findings): witnesses live in corpus/known/
     H("k_inexact_match", "K_inexact: precision 18, increment 1e18, price 0.999999999999999999, size 1e18+1").env() \
         .inst(precision=18, increment=10 ** 18) \
